@@ -493,6 +493,12 @@ func runC06(c *core.Ctx, o Options) {
 	s.checkIsLoggedExact("T6")
 	s.checkRestingSide("T1")
 	s.checkRegisteredOnce("T1", true, "Logon")
+	// T1 (premise): the Logon is decoded first, from the handler's own input, into a fresh builder — decoded into the shared
+	// prototype, a Logon that lacks fields inherits them from the previous one
+	if lf := s.one(true, "Logon"); lf != nil {
+		s.checkParseFirst("T1", "Logon", lf, s.tr.Traces(lf, s.m.AllStates))
+	}
+	c.Explanation += " T1 premise: the Logon is decoded first, from the handler's own input, into a fresh builder (shared with C07.G2/C16.J1)."
 	c.RuleMin = map[string]int{"M1": 3, "T1": 6, "T2": 4, "T3": 1, "T4": 1, "T5": 2, "T6": 1}
 	c.MinObl = 17
 }
@@ -810,7 +816,6 @@ func (s *sess) checkIsLoggedExact(rule string) {
 	}
 }
 
-
 // constMapTable: v is a load of a package-level map variable of package session that is written only by its initialiser, with
 // constant integer keys and values: the table as key → value constant.
 func (s *sess) constMapTable(v ssa.Value) (map[int64]ssa.Value, bool) {
@@ -870,7 +875,6 @@ func (s *sess) constMapTable(v ssa.Value) (map[int64]ssa.Value, bool) {
 	}
 	return out, okAll && len(out) > 0
 }
-
 
 // logonParamResultIdx: the positions of (ok, tag, reason) among the three results of checkLogonParams — by type for the
 // boolean, by name for the two integers when the results are named (tag…/reason…), else in the pinned order.
